@@ -1489,8 +1489,11 @@ func lemmaSliceConcat(seq Sequence, c int) Sequence {
 //@   prop C07
 //@ func AsTopology(s string) (t Topology, err error)
 //@   prop C07
+// A clause is split at its first '=': the name is the text before it (the whole clause when
+// there is none), the regexp the text after it.
 //@ func toQualifier(s string) (f Filter, err error)
 //@   prop C07 C19
+//@   callpre Qualifier(name, query): len(name) <= len(s) && (forall k in 0..len(name): name[k] == s[k] && name[k] != '=') && (len(name) == len(s) ==> len(query) == 0) && (len(name) < len(s) ==> s[len(name)] == '=' && len(query) == len(s) - len(name) - 1 && (forall k in 0..len(query): query[k] == s[len(name) + 1 + k]))
 // Selector: every clause between unescaped slashes becomes exactly one conjunct.  andDepth
 // counts the And applications a filter was built with (defined at And, where the closure is
 // created); the loop adds one per clause it shifts off, whatever the clause contains.
